@@ -3,6 +3,7 @@ package props
 import (
 	"errors"
 	"fmt"
+	"reflect"
 	"strings"
 
 	"github.com/veraison/psatoken"
@@ -38,6 +39,58 @@ type wrapErr struct{ inner error } // custom single Unwrap
 func (e *wrapErr) Error() string   { return "wrap(" + e.inner.Error() + ")" }
 func (e *wrapErr) Unwrap() error   { return e.inner }
 
+// error types that are not pointers (seeded fault C13-u: a map[error]... lookup in
+// the filter panics on a value whose dynamic type is not hashable)
+type listErr []error // "list of problems", unwraps to its entries
+
+func (e listErr) Error() string   { return fmt.Sprintf("list(%d)", len(e)) }
+func (e listErr) Unwrap() []error { return e }
+
+type mapErr map[string]error // problems by field, unwraps to its values
+
+func (e mapErr) Error() string { return fmt.Sprintf("map(%d)", len(e)) }
+func (e mapErr) Unwrap() []error {
+	var l []error
+	for _, v := range e {
+		l = append(l, v)
+	}
+	return l
+}
+
+type structErr struct { // struct value holding a slice: not comparable either
+	ctx   string
+	inner []error
+}
+
+func (e structErr) Error() string   { return "struct(" + e.ctx + ")" }
+func (e structErr) Unwrap() []error { return e.inner }
+
+type strErr string // comparable value type, no Unwrap
+
+func (e strErr) Error() string { return string(e) }
+
+// sameErr is error identity that also works for dynamic types Go cannot compare.
+func sameErr(a, b error) bool {
+	if a == nil || b == nil {
+		return a == nil && b == nil
+	}
+	ta := reflect.TypeOf(a)
+	if ta != reflect.TypeOf(b) {
+		return false
+	}
+	if ta.Comparable() {
+		return a == b
+	}
+	va, vb := reflect.ValueOf(a), reflect.ValueOf(b)
+	switch ta.Kind() {
+	case reflect.Slice:
+		return va.Len() == vb.Len() && (va.Len() == 0 || va.Pointer() == vb.Pointer())
+	case reflect.Map:
+		return va.Pointer() == vb.Pointer()
+	}
+	return fmt.Sprintf("%#v", a) == fmt.Sprintf("%#v", b)
+}
+
 type leaf struct {
 	name       string
 	err        error
@@ -66,11 +119,36 @@ func filterLeaves() []leaf {
 // genTree builds a random error tree and returns it with its description and
 // the ground truth "a filterable sentinel is reachable through Unwrap/Is".
 func genTree(g *model.Gen, leaves []leaf, depth int) (error, string, bool) {
-	k := g.R.Intn(9)
+	k := g.R.Intn(11)
 	if depth >= 4 {
 		k = 0
 	}
 	switch k {
+	case 9:
+		// non-pointer containers: slice / map / struct-with-slice values
+		n := g.R.Intn(3)
+		var es []error
+		var ds []string
+		f := false
+		for i := 0; i < n; i++ {
+			e, d, fi := genTree(g, leaves, depth+1)
+			es = append(es, e)
+			ds = append(ds, d)
+			f = f || fi
+		}
+		switch g.R.Intn(3) {
+		case 0:
+			return listErr(es), "list(" + strings.Join(ds, ",") + ")", f
+		case 1:
+			m := mapErr{}
+			for i, e := range es {
+				m[fmt.Sprintf("f%d", i)] = e
+			}
+			return m, "map(" + strings.Join(ds, ",") + ")", f
+		}
+		return structErr{"s", es}, "struct(" + strings.Join(ds, ",") + ")", f
+	case 10:
+		return strErr([]string{"missing optional", "not in profile", "x"}[g.R.Intn(3)]), "str-value", false
 	case 0, 1:
 		l := leaves[g.R.Intn(len(leaves))]
 		return l.err, l.name, l.filterable
@@ -121,7 +199,7 @@ func genTree(g *model.Gen, leaves []leaf, depth int) (error, string, bool) {
 var c13Signer = keys.New("ES256", 0).Signer
 
 func runC13(c *mon.Ctx) {
-	c.Rule("(1) every claim x every value class alone (exact class of the getter and of Validate required) and 2-4 combined faults (class of some offending claim required) on claims-sets of both base profiles AND of the two extension profiles embedding them (same rules, other canonical name), built directly, CBOR-decoded and JSON-decoded; (2) every setter of both profiles and of the component x value classes (error class of a refusal); (3) component Validate/getters per field fault; (3b) an extension's component type reporting absent-optional / not-in-profile with the class sentinels (bare and wrapped) through ValidateSwComponent and the container; (4) FilterError on generated error trees (leaves: the 11 exported sentinels, foreign and same-text errors; nodes: %w, %v, errors.Join, custom Unwrap() []error, custom Unwrap, custom Is) with ground truth computed on the generated tree. distinct_nontrivial = distinct (profile, claim=class) signatures / distinct tree shapes")
+	c.Rule("(1) every claim x every value class alone (exact class of the getter and of Validate required) and 2-4 combined faults (class of some offending claim required) on claims-sets of both base profiles AND of the two extension profiles embedding them (same rules, other canonical name), built directly, CBOR-decoded and JSON-decoded; (2) every setter of both profiles and of the component x value classes (error class of a refusal); (3) component Validate/getters per field fault; (3c) the same field patterns written IN PLACE, through the pointer GetSoftwareComponents handed out, into a component of a set built by NewClaims + setters that has just validated; (3b) an extension's component type reporting absent-optional / not-in-profile with the class sentinels (bare and wrapped) through ValidateSwComponent and the container; (4) FilterError on generated error trees (leaves: the 11 exported sentinels, foreign and same-text errors; nodes: %w, %v, errors.Join, custom Unwrap() []error, custom Unwrap, custom Is, and NON-POINTER error values: slice-, map- and struct-with-slice-typed lists of problems, a string-typed error) with ground truth computed on the generated tree. distinct_nontrivial = distinct (profile, claim=class) signatures / distinct tree shapes")
 	g := model.NewGen(c.Seed*31337 + int64(c.Shard))
 	idx := 0
 	classOK := func(sig string, a *model.Claims, single bool) {
@@ -425,6 +503,74 @@ func runC13(c *mon.Ctx) {
 			}
 		}
 	}
+	// (3c) the same field faults reached IN PLACE (seeded fault C13-v: a "validated"
+	// flag on the component container that the setters raise): a set built through
+	// NewClaims + setters with two good components is validated and read, then one
+	// component is overwritten through the pointer the caller kept; the error class
+	// of Validate / GetSoftwareComponents must be the one the content now calls for.
+	for p := 1; p <= 2; p++ {
+		for mv := 0; mv < 3; mv++ {
+			for sg := 0; sg < 3; sg++ {
+				for t := 0; t < 8; t++ {
+					idx++
+					if !c.Mine(idx) {
+						continue
+					}
+					code := [5]int{t & 1, mv, (t >> 1) & 1, sg, (t >> 2) & 1}
+					a := g.Valid(p)
+					a.NoMeas, a.HasComps = nil, true
+					a.Comps = []model.Comp{g.CompFromCode([5]int{1, 1, 1, 1, 1}), g.CompFromCode([5]int{0, 1, 0, 1, 0})}
+					x, err := obs.SetterBuild(a)
+					if err != nil {
+						continue
+					}
+					kept := make([]*psatoken.SwComponent, 0, 2)
+					ok := false
+					if pn, pv, fr := mon.Guard(func() {
+						if x.Validate() != nil {
+							return
+						}
+						l, gerr := x.GetSoftwareComponents()
+						if gerr != nil || len(l) != 2 {
+							return
+						}
+						for _, e := range l {
+							if sc, is := e.(*psatoken.SwComponent); is {
+								kept = append(kept, sc)
+							}
+						}
+						ok = len(kept) == 2
+					}); pn {
+						c.Violation("C13/panic/"+mon.PanicKey(fr), "panic while reading a setter-built set", map[string]any{"panic": pv, "frame": fr})
+						continue
+					}
+					if !ok {
+						c.Violation("C13/in-place/setter-built-set-not-valid", "a claims-set built through the setters with two good components does not validate / hand out its two components", map[string]any{"profile": p})
+						continue
+					}
+					which := t % 2
+					ac := g.CompFromCode(code)
+					*kept[which] = *obs.RealComp(&ac)
+					a.Comps[which] = ac
+					want, got := a.Expect(), obs.Observe(x)
+					c.Eval()
+					c.Count("in-place-component-cases")
+					c.Sig(fmt.Sprint("comp-in-place", p, code))
+					d := model.ObsDiff(&want, &got)
+					if d == "" && want.Validate != model.OK && !a.ValidateClasses()[got.Validate] {
+						d = fmt.Sprintf("validate: class %s, documented %v", got.Validate, a.ValidateClasses())
+					}
+					if d != "" {
+						var ks []string
+						for _, seg := range strings.Split(d, "; ") {
+							ks = append(ks, strings.SplitN(seg, ":", 2)[0])
+						}
+						c.Violation(fmt.Sprintf("C13/in-place-component/P%d/%s", p, strings.Join(ks, ",")), fmt.Sprintf("profile %d, component %d overwritten in place with field pattern %v after a successful Validate: %s", p, which, code, d), map[string]any{"profile": p, "code": fmt.Sprint(code)})
+					}
+				}
+			}
+		}
+	}
 	// (4) the error filter
 	leaves := filterLeaves()
 	if c.Shard == 0 {
@@ -498,7 +644,7 @@ func runC13(c *mon.Ctx) {
 			}
 		} else {
 			c.Count("filter-expected-identity")
-			if got != e {
+			if !sameErr(got, e) {
 				c.Violation("C13/filter/not-identity", fmt.Sprintf("FilterError returned %v instead of the error itself for tree %s", got, desc), map[string]any{"tree": desc})
 			}
 		}
